@@ -538,6 +538,15 @@ class SigmaDetections:
             )
         self.parsed_condition = [SigmaCondition(cond, self, self.source) for cond in self.condition]
 
+    @staticmethod
+    def check_identifiers(detections: dict[Any, Any], source: SigmaRuleLocation | None) -> None:
+        """Detection identifiers are referred to by name in conditions: they must be strings."""
+        for name in detections:
+            if not isinstance(name, str):
+                raise sigma_exceptions.SigmaDetectionError(
+                    f"Detection identifier '{ name }' must be a string", source=source
+                )
+
     @classmethod
     def from_dict(
         cls: type[Self],
@@ -554,6 +563,7 @@ class SigmaDetections:
                 "Sigma rule must contain at least one condition", source=source
             )
 
+        cls.check_identifiers(detections, source)
         return cls(
             detections={
                 name: SigmaDetection.from_definition(definition, source)
